@@ -2,10 +2,9 @@ import Mathlib.Tactic.SplitIfs
 import Mathlib.Tactic.IntervalCases
 import Pycoin.Proofs.VMDelete
 /-!
-`SigDelShared` discharged: along Core's run of a script whose instructions all decode, started on items of at most 520
-bytes, every item stays within 520 bytes and the last code separator is an instruction boundary, so signature deletion
-agrees (`VMDelete`).  With `VMWalk` (undecodable scripts fail on both sides) this gives `evalScript_eq_full`:
-`eval_script` = `EvalScript` with no hypothesis on the script.
+`SigDelShared` discharged: along Core's run of any script started on items of at most 520 bytes, every item stays
+within 520 bytes, so signature deletion agrees (`VMDelete.delAgrees_all`, every script code since the repair of
+`delete_subscript`); hence `evalScript_eq_full`: `eval_script` = `EvalScript` with no hypothesis on the script.
 -/
 namespace Pycoin.VM
 open Pycoin.Spec Pycoin.Gen.VM CondStack Consensus
@@ -78,31 +77,24 @@ theorem specStep_codeSep (st st' : Consensus.State) (op : Nat) (data : Bytes) (p
       exact this
     · obtain ⟨he, _⟩ := afterC_ok _ _ h; cases he; exact Or.inl rfl
 
-/-- along Core's run of a script whose instructions all decode, started on items of at most 520 bytes: items stay
-within 520 bytes, and the position and the last code separator are instruction boundaries -/
-theorem reach_inv (stack0 : List Bytes) (hok : okL stack0) (hw : Walkable cfg.script) :
-    ∀ pc st, Reach chk cfg stack0 pc st →
-      ItemsOk st ∧ Walkable (cfg.script.drop pc) ∧ Walkable (cfg.script.drop st.codeSep) := by
+/-- along Core's run of any script started on items of at most 520 bytes, items stay within 520 bytes -/
+theorem reach_items (stack0 : List Bytes) (hok : okL stack0) :
+    ∀ pc st, Reach chk cfg stack0 pc st → ItemsOk st := by
   intro pc st hr
   induction hr with
-  | init => exact ⟨⟨hok, okL_nil⟩, by simpa using hw, by simpa using hw⟩
+  | init => exact ⟨hok, okL_nil⟩
   | @step pc st st' op data rest' size _ hg hs ih =>
-    obtain ⟨hi, hwp, hwc⟩ := ih
     obtain ⟨hlt, hdat⟩ := getScriptOp_facts _ _ _ _ _ hg
-    obtain ⟨hrest, _, _⟩ := getScriptOp_rest _ _ _ _ _ hg
-    have hdrop : rest' = cfg.script.drop (pc + size) := by rw [hrest, List.drop_drop]
-    have hwn : Walkable (cfg.script.drop (pc + size)) := by rw [← hdrop]; exact walkable_step hg hwp
-    refine ⟨specStep_items chk cfg st st' op data (pc + size) hlt hdat hs hi, hwn, ?_⟩
-    rcases specStep_codeSep chk cfg st st' op data (pc + size) hlt hdat hs with h | h
-    · rw [h]; exact hwc
-    · rw [h]; exact hwn
+    exact specStep_items chk cfg st st' op data (pc + size) hlt hdat hs ih
 
-/-- **signature deletion is shared** for every script whose instructions all decode, run on items of at most 520 bytes -/
-theorem sigDelShared_walkable (stack0 : List Bytes) (hok : okL stack0) (hw : Walkable cfg.script) :
-    SigDelShared chk cfg stack0 := by
+/-- **signature deletion is shared** for every script, run on items of at most 520 bytes -/
+theorem sigDelShared_items (stack0 : List Bytes) (hok : okL stack0) : SigDelShared chk cfg stack0 := by
   intro pc st hr sigs hmem
-  obtain ⟨hi, _, hwc⟩ := reach_inv chk cfg stack0 hok hw pc st hr
-  exact delAgrees_walkable cfg st sigs hwc (fun s hs => hi.1 s (hmem s hs))
+  have hi := reach_items chk cfg stack0 hok pc st hr
+  exact delAgrees_all cfg st sigs (fun s hs => hi.1 s (hmem s hs))
+
+theorem sigDelShared_walkable (stack0 : List Bytes) (hok : okL stack0) (_hw : Walkable cfg.script) :
+    SigDelShared chk cfg stack0 := sigDelShared_items chk cfg stack0 hok
 
 /-- **C03.eval_eq, no hypothesis on the script**: `eval_script` = `EvalScript` for every script (decodable or not), every
 initial stack of items within 520 bytes, every flag set, both signature versions -/
@@ -111,9 +103,6 @@ theorem evalScript_eq_full (hw : hasFlag cfg.flags VERIFY_MINIMALIF = true → c
     (stack : List Bytes) (hok : okL stack) :
     (evalScript (stdEnv chk) cfg stack).toOption.map (·.stack) =
       (Consensus.evalScript (specChk chk) stack cfg.script (Flags.ofBits cfg.flags)
-        ⟨cfg.ctx.version, cfg.ctx.lockTime, cfg.ctx.sequence⟩ (if cfg.witness then .witnessV0 else .base)).toOption := by
-  by_cases hwk : Walkable cfg.script
-  · exact evalScript_eq_all chk cfg hw hwp hchk stack (sigDelShared_walkable chk cfg stack hok hwk)
-  · obtain ⟨h1, h2⟩ := evalScript_unwalkable chk cfg hw hwk stack
-    rw [h1, h2]; rfl
+        ⟨cfg.ctx.version, cfg.ctx.lockTime, cfg.ctx.sequence⟩ (if cfg.witness then .witnessV0 else .base)).toOption :=
+  evalScript_eq_all chk cfg hw hwp hchk stack (sigDelShared_items chk cfg stack hok)
 end Pycoin.VM
